@@ -21,7 +21,7 @@ RULE = ('no big-endian host, cross compiler or emulator exists in this sandbox, 
         'translator: w2c2 itself built with -DWASM_ENDIAN=1 must emit bswap(c) for every f32/f64 immediate (function bodies and global initialisers) and leave integer '
         'immediates unchanged. Non-trivial = history with a 16/32/64-bit store followed by a narrower or unaligned load of the '
         'same bytes, an RMW/cmpxchg narrower than 64 bits, a float access, or a float immediate whose byte-reversal differs from '
-        'itself; distinct by (module, history, byte order).')
+        'itself; distinct by (module, history, byte order). WASI host: the histories of C12-C15 (state machines and case generators of those checks, their oracles unchanged) run against an agent built with -DWASM_ENDIAN=1; the executor reads and writes iovec arrays, result cells, stat / fdstat / prestat records, directory entries and pointer arrays in the mirrored layout, byte buffers unchanged; non-trivial by the rules of those checks. Contended big-endian read-modify-writes incl. a ThreadSanitizer build for the add-loop / drain-loop mode.')
 ASSUME = ['contended big-endian read-modify-writes are sampled by stress runs with real threads (C16 stress modes on the forced big-endian builds), not enumerated',
           'compiler/ABI effects of a real big-endian target are out of reach; UBSan alignment checks are off for the forced '
           'builds (the big-endian paths dereference cast pointers)']
